@@ -98,5 +98,28 @@ PROPS["C10"] = dict(
     assumptions=["FLV E.4.2/E.4.3 layout as coded in c10_test.go (refAudioBody / video layout)"],
 )
 
+PROPS["C11"] = dict(
+    pkg="c11", level="exploration",
+    rule="all 65536 AudioSpecificConfigs enumerated; all accepted ADTS header field combinations enumerated through an independent ISO 13818-7 writer/parser; rapid-generated multi-frame concatenations "
+         "mixing library-encoded and reference-written frames (MPEG-2/4 id, CRC on/off, boundary lengths, sync patterns in payloads); per-check rules under coverage.checks",
+    quick=dict(timeout=600), thorough=dict(shards=16, timeout=3000),
+    technique="exhaustive enumeration (configs, header fields) + property-based testing (rapid) of frame concatenations; differential against an independent ISO 13818-7 ADTS writer/parser",
+    level_text="The 2-byte config space and the ADTS header field space are enumerated completely; payloads, lengths and concatenations are sampled with boundary bias.",
+    level_note="Trusts internal/ref/adtsref (ADTS bit layout and sampling-frequency table from ISO/IEC 13818-7 / 14496-3). One raw data block per frame.",
+    assumptions=["internal/ref/adtsref follows ISO/IEC 13818-7 section 6.2", "number_of_raw_data_blocks_in_frame = 0"],
+)
+
+PROPS["C12"] = dict(
+    pkg="c12", level="exploration",
+    rule="all 256 NAL header bytes enumerated; rapid-generated AVC decoder configuration records and length-prefixed samples compared byte for byte with an independent ISO/IEC 14496-15 writer "
+         "(reserved bits included) and round-tripped into fresh values; per-check rules under coverage.checks",
+    quick=dict(timeout=600), thorough=dict(shards=16, timeout=3000),
+    technique="exhaustive enumeration of NAL header bytes + property-based testing (rapid): round trip and byte-exact differential against an independent ISO/IEC 14496-15 writer/strict parser",
+    level_text="The NAL header byte is enumerated completely; records and samples are sampled with boundary bias (31 SPS, 255 PPS, NAL sizes 1/255/256/65535, every length size).",
+    level_note="Trusts internal/ref/avccref (record and sample layout from ISO/IEC 14496-15 5.2.4.1.1 / 5.3.4.2). Unmarshalling twice into the same value, >31 SPS and empty NAL units are outside the domain; "
+               "the compatibility byte is not settable through the API, so arbitrary values of it are exercised through the bytes -> value -> bytes direction.",
+    assumptions=["internal/ref/avccref follows ISO/IEC 14496-15 section 5.2.4.1.1 and 5.3.4.2"],
+)
+
 NOT_APPLICABLE = {}
 HOOK_COMMITS = []
